@@ -16,6 +16,7 @@ TRUSTED_BASE = [
     "axioms allowed in property theorems: propext, Classical.choice, Quot.sound (audited by #print axioms on every run)",
     "tools/go2lean: translator of the leaf functions/constants/decision code (Generated/Leaf.lean is regenerated on every run)",
     "tools/gofacts: extractor of synchronisation skeletons and structural facts (Generated/Facts.lean)",
+    "tools/go2deep + Deep/Interp.lean: printer of the go/ast of the cache-layer method bodies (Generated/Deep.lean, regenerated on every run) and the definitional interpreter that gives the Go subset its meaning (closures capturing by reference, named results, evaluation order, type assertions); Proofs/DeepCache*.lean prove interpreter(generated syntax) = hand-written M2 for every state and call",
     "tools/rewrite + harness/vshim: build-time selector substitution (virtual clock, cooperative scheduler) through go build -overlay",
     "hand-written models (modelled, not verified): cache-layer method bodies, doCompute/Load/resize/Range/copyBucket/appendToBucket, constructor plumbing; validated only by the correspondence runs counted below",
     "Go compiler/runtime, sync/atomic sequential consistency, monotone clock, pure total user functions",
@@ -86,7 +87,7 @@ class Run:
 def build_tools(run):
     os.makedirs(BUILD, exist_ok=True)
     with Lock("tools"):
-        for t in ("go2lean", "gofacts", "rewrite"):
+        for t in ("go2lean", "gofacts", "go2deep", "rewrite"):
             if not os.path.isdir(os.path.join(VERIF, "tools", t)):
                 continue
             rc, out, err = sh(["go", "build", "-o", os.path.join(BUILD, t), "./" + t], cwd=os.path.join(VERIF, "tools"))
@@ -105,6 +106,12 @@ def regenerate(run):
             rc, out, err = sh([os.path.join(BUILD, "gofacts"), REPO, os.path.join(LEAN, "CacheVerif", "Generated", "Facts.lean")])
             run.oblige("gofacts: structural facts extracted from the working tree", rc == 0, err.strip())
             ok &= rc == 0
+        if os.path.exists(os.path.join(BUILD, "go2deep")):
+            rc, out, err = sh([os.path.join(BUILD, "go2deep"), REPO, os.path.join(LEAN, "CacheVerif", "Generated", "Deep.lean")])
+            run.oblige("go2deep: every method body of xsync_map.go / xsync_mapof.go is inside the Go subset of the deep embedding", rc == 0, err.strip())
+            if rc != 0:
+                # keep the Lean project buildable for the other obligations: the generated files stay as they were
+                pass
     return ok
 
 
